@@ -53,19 +53,20 @@ func mix(seed int64, idx int) int64 {
 	return int64(h.Sum64() >> 1)
 }
 
+// hashShape: 8 raw bytes per shape (the thorough tier keeps > 20 million of them)
 func hashShape(s string) string {
 	h := fnv.New64a()
 	h.Write([]byte(s))
-	return fmt.Sprintf("%016x", h.Sum64())
+	return string(h.Sum(nil))
 }
 
 type job struct {
-	phase     string
-	order     int
-	reader    ledger.XMReader
-	bk        *backingDesc
-	prog      []Op
-	skipScans bool
+	phase      string
+	order      int
+	reader     ledger.XMReader
+	bk         *backingDesc
+	prog       []Op
+	softNilEnd bool
 }
 
 func answers(prog []Op, obs []*Obs) []string {
@@ -80,18 +81,20 @@ func answers(prog []Op, obs []*Obs) []string {
 	return out
 }
 
+var sampleQuota = map[string]int{"exhaustive": 2, "random-mem": 2, "real-xmodel": 1, "nilend-probe": 1}
+
 func main() {
 	r := ev.Start("C10", "exploration",
 		"programs of Get/Put/Del/Select(any bounds, early stop, two open iterators, writes while open)/Transfer/AddEvent/Flush/RWSet run on sandbox.NewXModelCache in lock-step with an "+
 			"overlay-map oracle, then RW-set audit, then replay over XMReaderFromRWSet(rwset) alone. Part 1 (exhaustive): every program of <= 4 ops over a 13-op alphabet (get/put/del of 3 keys, "+
-			"4 scans) x every backing state of the 3 keys (never-written/live/deleted)^3 on an in-memory versioned reader. Part 2: random programs (1-40 ops, 1-3 buckets + $transient) over random "+
+			"4 scans; thorough tier: <= 5 ops, plus open-iterator / next-1) x every backing state of the 3 keys (never-written/live/deleted)^3 on an in-memory versioned reader. Part 2: random programs (1-40 ops, 1-3 buckets + $transient) over random "+
 			"in-memory backing states. Part 3: random programs over the REAL xmodel of simnode nodes with committed create/overwrite/delete/re-create transactions (confirmed and pending). "+
 			"Part 4 (probe): nil-upper-bound scans over the real xmodel, pre-execution vs replay. case = (backing state, program); distinct = up to the unique ids written; "+
 			"non-trivial = the program made at least one observation (Get answer / scan item / scan end) that depended on a preceding write of the execution or on a key present in the backing state")
 	defer sn.CleanupScratch()
 
 	col := &collector{best: map[string]*witness{}, count: map[string]int{}}
-	jobs := make(chan job, 1024)
+	jobs := make(chan func(func(job)), 256) // batches of cases; each batch generates its cases inside the worker
 	var wg sync.WaitGroup
 	workers := runtime.NumCPU()
 	if workers > 16 {
@@ -104,66 +107,65 @@ func main() {
 		go func() {
 			defer wg.Done()
 			lc := map[string]int{}
-			for j := range jobs {
-				res := runCase(j.reader, j.bk, j.prog, j.skipScans)
-				f := res.f
-				nontrivial := res.observed > 0 && (f.writes+f.dels > 0 || res.fromBk > 0 || res.scanItems > 0)
-				r.Case(hashShape(j.phase+"/"+shapeOf(j.bk.ID, j.prog)), nontrivial)
-				lc["programs."+j.phase]++
-				lc["ops"] += len(j.prog)
-				lc["answers.judged"] += res.observed
-				lc["answers.served-from-backing-state"] += res.fromBk
-				lc["scan.items-judged"] += res.scanItems
-				lc["ops.get"] += f.reads
-				lc["ops.put"] += f.writes
-				lc["ops.del"] += f.dels
-				lc["ops.select"] += f.scans
-				lc["ops.transfer"] += f.transfers
-				for name, on := range map[string]bool{"two-iterators-open": f.twoIters, "write-while-iterator-open-same-bucket": f.writeWhileOpen,
-					"early-stop": f.earlyStop, "nil-lower-bound": f.nilLo, "nil-upper-bound": f.nilHi, "empty-bound": f.emptyBound,
-					"inverted-range": f.inverted, "transient-write": f.transientWrite, "transient-read": f.transientRead, "mid-execution-rwset": f.midRWSet,
-					"scan-over-key-deleted-in-this-execution": f.scanOverExecDel, "scan-over-looked-up-absent-key": f.scanOverLookedAbsent,
-					"scan-over-key-deleted-in-backing-state": f.scanOverBkDel, "scan-over-key-overwritten-in-this-execution": f.scanOverOverwritten} {
-					if on {
-						lc["feature."+name]++
+			for gen := range jobs {
+				gen(func(j job) {
+					res := runCase(j.reader, j.bk, j.prog, j.softNilEnd)
+					f := res.f
+					nontrivial := res.observed > 0 && (f.writes+f.dels > 0 || res.fromBk > 0 || res.scanItems > 0)
+					r.Case(hashShape(j.phase+"/"+shapeOf(j.bk.ID, j.prog)), nontrivial)
+					lc["programs."+j.phase]++
+					lc["ops"] += len(j.prog)
+					lc["answers.judged"] += res.observed
+					lc["answers.served-from-backing-state"] += res.fromBk
+					lc["scan.items-judged"] += res.scanItems
+					lc["ops.get"] += f.reads
+					lc["ops.put"] += f.writes
+					lc["ops.del"] += f.dels
+					lc["ops.select"] += f.scans
+					lc["ops.transfer"] += f.transfers
+					for name, on := range map[string]bool{"two-iterators-open": f.twoIters, "write-while-iterator-open-same-bucket": f.writeWhileOpen,
+						"early-stop": f.earlyStop, "nil-lower-bound": f.nilLo, "nil-upper-bound": f.nilHi, "empty-bound": f.emptyBound,
+						"inverted-range": f.inverted, "transient-write": f.transientWrite, "transient-read": f.transientRead, "mid-execution-rwset": f.midRWSet,
+						"scan-over-key-deleted-in-this-execution": f.scanOverExecDel, "scan-over-looked-up-absent-key": f.scanOverLookedAbsent,
+						"scan-over-key-deleted-in-backing-state": f.scanOverBkDel, "scan-over-key-overwritten-in-this-execution": f.scanOverOverwritten} {
+						if on {
+							lc["feature."+name]++
+						}
 					}
-				}
-				if res.prob != nil {
-					lc["violating-programs"]++
-					col.add(&witness{Phase: j.phase, Backing: j.bk.describe(), Program: progLines(j.prog), Answers: answers(j.prog, res.obs),
-						order: j.order, sig: res.prob.Sig, detail: res.prob.Detail})
-					continue
-				}
-				lc["replays.compared"]++
-				lc["rset.entries"] += res.rsetSize
-				lc["wset.entries"] += res.wsetSize
-				lc["rset.lookahead-extras"] += res.lookahead
-				lc["rset.unrelated-extras"] += res.unrelated
-				if j.skipScans {
-					lc["nilend-probe.scans-missing-live-keys-in-pre-execution"] += res.nilEndMiss
-				}
-				sampleMu.Lock()
-				if sampled[j.phase] < 2 && res.observed >= 2 && len(j.prog) >= 3 && len(j.prog) <= 8 && (f.writes+f.dels > 0) && f.scans > 0 {
-					sampled[j.phase]++
-					r.Sample(map[string]interface{}{"phase": j.phase, "backing_state": j.bk.describe(), "program": progLines(j.prog), "sandbox_answers": answers(j.prog, res.obs)})
-				}
-				sampleMu.Unlock()
+					if res.prob != nil {
+						lc["violating-programs"]++
+						lc["violations-by-part."+j.phase+"."+res.prob.Sig]++
+						col.add(&witness{Phase: j.phase, Backing: j.bk.describe(), Program: progLines(j.prog), Answers: answers(j.prog, res.obs),
+							order: j.order, sig: res.prob.Sig, detail: res.prob.Detail})
+						return
+					}
+					lc["replays.compared"]++
+					lc["rset.entries"] += res.rsetSize
+					lc["wset.entries"] += res.wsetSize
+					lc["rset.lookahead-extras"] += res.lookahead
+					lc["rset.unrelated-extras"] += res.unrelated
+					if j.softNilEnd {
+						lc["nilend-probe.scans-missing-live-keys-in-pre-execution"] += res.nilEndMiss
+					}
+					sampleMu.Lock()
+					if sampled[j.phase] < sampleQuota[j.phase] && res.observed >= 2 && len(j.prog) >= 3 && len(j.prog) <= 8 && (f.writes+f.dels > 0) && f.scans > 0 {
+						sampled[j.phase]++
+						r.Sample(map[string]interface{}{"phase": j.phase, "backing_state": j.bk.describe(), "program": progLines(j.prog), "sandbox_answers": answers(j.prog, res.obs)})
+					}
+					sampleMu.Unlock()
+				})
 			}
 			for k, v := range lc {
 				r.Count(k, v)
 			}
 		}()
 	}
-	order := 0
-	submit := func(j job) {
-		order++
-		j.order = order
-		jobs <- j
-	}
+	submitted := 0
+	perBacking := 0
 
 	// ---- part 1: exhaustive ----
-	alpha := exAlphabet()
-	maxLen := 4
+	alpha := exAlphabet(!r.Quick())
+	maxLen := r.N(4, 5)
 	nBack := 0
 	for code := 0; code < 27; code++ {
 		d := &backingDesc{ID: fmt.Sprintf("ex%02d", code), M: map[string]map[string]bkEntry{}}
@@ -179,30 +181,53 @@ func main() {
 		}
 		rd := &memReader{d: d, strict: true}
 		nBack++
+		base := code * 1000000
 		for n := 1; n <= maxLen; n++ {
 			total := ipow(len(alpha), n)
-			for idx := 0; idx < total; idx++ {
-				submit(job{phase: "exhaustive", reader: rd, bk: d, prog: exProgram(alpha, n, idx)})
+			if code == 0 {
+				perBacking += total
 			}
+			for lo := 0; lo < total; lo += 4000 {
+				lo, hi, n, base := lo, lo+4000, n, base
+				if hi > total {
+					hi = total
+				}
+				jobs <- func(emit func(job)) {
+					for idx := lo; idx < hi; idx++ {
+						emit(job{phase: "exhaustive", order: base + idx, reader: rd, bk: d, prog: exProgram(alpha, n, idx)})
+					}
+				}
+				submitted += hi - lo
+			}
+			base += total
 		}
 	}
-	fmt.Fprintf(os.Stderr, "c10: exhaustive part submitted (%d cases)\n", order)
+	fmt.Fprintf(os.Stderr, "c10: exhaustive part submitted (%d cases)\n", submitted)
 
 	// ---- part 2: random programs over random in-memory backing states ----
-	nMem := r.N(60000, 3000000)
-	for i := 0; i < nMem; i++ {
-		rg := rand.New(rand.NewSource(mix(r.Seed, i)))
-		u := genUniverse(rg)
-		d := genMemBacking(rg, u, fmt.Sprintf("mem%d", i))
-		rd := &memReader{d: d, strict: rg.Intn(2) == 0}
-		prog := genProgram(rg, u, genOpts{maxOps: 40, nilHi: true, inverted: rg.Intn(12) == 0, transfers: true})
-		submit(job{phase: "random-mem", reader: rd, bk: d, prog: prog})
+	nMem := r.N(120000, 3000000)
+	for lo := 0; lo < nMem; lo += 1000 {
+		lo, hi := lo, lo+1000
+		if hi > nMem {
+			hi = nMem
+		}
+		jobs <- func(emit func(job)) {
+			for i := lo; i < hi; i++ {
+				rg := rand.New(rand.NewSource(mix(r.Seed, i)))
+				u := genUniverse(rg)
+				d := genMemBacking(rg, u, fmt.Sprintf("mem%d", i))
+				rd := &memReader{d: d, strict: rg.Intn(2) == 0}
+				prog := genProgram(rg, u, genOpts{maxOps: 40, nilHi: true, inverted: rg.Intn(12) == 0, transfers: true})
+				emit(job{phase: "random-mem", order: 100000000 + i, reader: rd, bk: d, prog: prog})
+			}
+		}
+		submitted += hi - lo
 	}
-	fmt.Fprintf(os.Stderr, "c10: random-mem part submitted (%d cases)\n", order)
+	fmt.Fprintf(os.Stderr, "c10: random-mem part submitted (%d cases)\n", submitted)
 
 	// ---- part 3 + 4: the real xmodel ----
-	nNodes := r.N(4, 24)
-	perNode := r.N(4000, 60000)
+	nNodes := r.N(6, 24)
+	perNode := r.N(6000, 60000)
 	probePerNode := r.N(1500, 20000)
 	for ni := 0; ni < nNodes; ni++ {
 		rg := rand.New(rand.NewSource(mix(r.Seed, 1<<30+ni)))
@@ -230,19 +255,36 @@ func main() {
 				}
 			}
 		}
-		for i := 0; i < perNode; i++ {
-			pg := rand.New(rand.NewSource(mix(r.Seed, 1<<29+ni*1000003+i)))
-			prog := genProgram(pg, rb.u, genOpts{maxOps: 30, nilHi: false, inverted: pg.Intn(12) == 0, transfers: true})
-			submit(job{phase: "real-xmodel", reader: rb.reader, bk: rb.desc, prog: prog})
+		ni := ni
+		for lo := 0; lo < perNode; lo += 500 {
+			lo, hi := lo, lo+500
+			if hi > perNode {
+				hi = perNode
+			}
+			jobs <- func(emit func(job)) {
+				for i := lo; i < hi; i++ {
+					pg := rand.New(rand.NewSource(mix(r.Seed, 1<<29+ni*1000003+i)))
+					prog := genProgram(pg, rb.u, genOpts{maxOps: 30, nilHi: false, inverted: pg.Intn(12) == 0, transfers: true})
+					emit(job{phase: "real-xmodel", order: 200000000 + ni*1000000 + i, reader: rb.reader, bk: rb.desc, prog: prog})
+				}
+			}
 		}
 		live := map[string][]string{}
 		for _, b := range rb.u.Buckets {
 			live[b] = rb.desc.liveKeys(b)
 		}
-		for i := 0; i < probePerNode; i++ {
-			pg := rand.New(rand.NewSource(mix(r.Seed, 1<<28+ni*1000003+i)))
-			prog := genProgram(pg, rb.u, genOpts{maxOps: 8, nilHi: true, hiNilAlways: true, onlyKeys: live})
-			submit(job{phase: "nilend-probe", reader: rb.reader, bk: rb.desc, prog: prog, skipScans: true})
+		for lo := 0; lo < probePerNode; lo += 500 {
+			lo, hi := lo, lo+500
+			if hi > probePerNode {
+				hi = probePerNode
+			}
+			jobs <- func(emit func(job)) {
+				for i := lo; i < hi; i++ {
+					pg := rand.New(rand.NewSource(mix(r.Seed, 1<<28+ni*1000003+i)))
+					prog := genProgram(pg, rb.u, genOpts{maxOps: 8, nilHi: true, hiNilAlways: true, onlyKeys: live})
+					emit(job{phase: "nilend-probe", order: 300000000 + ni*1000000 + i, reader: rb.reader, bk: rb.desc, prog: prog, softNilEnd: true})
+				}
+			}
 		}
 	}
 	close(jobs)
@@ -260,7 +302,7 @@ func main() {
 		r.Violation(s, w.detail, w)
 	}
 	r.Extra("exhaustive_part", map[string]interface{}{"alphabet": progLines(alpha), "max_ops": maxLen, "backing_states": nBack,
-		"programs_per_backing_state": ipow(len(alpha), 1) + ipow(len(alpha), 2) + ipow(len(alpha), 3) + ipow(len(alpha), 4)})
+		"programs_per_backing_state": perBacking})
 	r.Exhaustive(true)
 	r.Assume("the in-memory reader of parts 1-2 follows xmodel's conventions (never-written key = empty version, deleted key = version with the delete marker that Select does not list, " +
 		"nil upper bound = end of bucket as documented by the sandbox's own MemXModel); part 3 uses the real xmodel")
